@@ -52,6 +52,17 @@ def make_runs(run):
             run.count("same-labels-other-parameters")
         runs.append(dict(p=p, frac=Fraction(1), replace_all=(k % 7 == 0), ignore=False, seed=run.rng.randrange(1 << 30),
                          parts=("atoms", "terms", "outcome"), kind="cif-like" if cif_like else "planted", stage2=(k % 4 == 0 and not cif_like)))
+    # pure deletion of overlapping matches (empty replacement): the terms of the rest of the structure must follow their atoms
+    from c07 import make_overlap_problem
+    got, kk = 0, 0
+    while got < (6 if run.tier == "quick" else 60) and kk < 400:
+        p = make_overlap_problem(run.rng, kk)
+        kk += 1
+        if p is None or p["mode"] != "overlap-empty":
+            continue
+        got += 1
+        runs.append(dict(p=p, frac=Fraction(1), replace_all=False, ignore=False, seed=run.rng.randrange(1 << 30),
+                         parts=("atoms", "terms", "outcome"), kind="overlapping-deletion", stage2=False))
     return runs
 
 
